@@ -86,6 +86,9 @@ type World struct {
 	Gen   *CounterGen
 	ctx   context.Context
 	stop  context.CancelFunc
+	// AfterClose, if set, runs after Server.Close has returned and BEFORE the context that was given to Server.Serve
+	// is cancelled (a closed server must not need that cancellation to release its goroutines).
+	AfterClose func()
 }
 
 var worldSeq uint64
@@ -479,6 +482,10 @@ func (w *World) Shutdown() error {
 	case <-time.After(Watchdog):
 		err = fmt.Errorf("server Close did not return within %v", Watchdog)
 	}
+	if w.AfterClose != nil && err == nil {
+		_ = w.Lis.Close() // the listener belongs to the caller of Serve: the accept loop ends with it
+		w.AfterClose()
+	}
 	w.stop()
 	_ = w.Lis.Close()
 	w.Srv = nil
@@ -494,6 +501,10 @@ func (w *World) Closed() {
 	for _, s := range w.Sess {
 		_ = s.C.End.Close()
 		s.Dead = true
+	}
+	if w.AfterClose != nil {
+		_ = w.Lis.Close()
+		w.AfterClose()
 	}
 	w.stop()
 	_ = w.Lis.Close()
